@@ -41,7 +41,7 @@ func runC06(r *Run, p *Prog) {
 	r.Stat("read_sites", nsites)
 	r.Floor("Q1", 10)
 	r.Floor("Q2", 6)
-	r.Note("roles: skipper=%s line-skippers=%v token-readers=%d type-readers=%d member-loop=%s entry=%s", shortName(m.skipper), fnNames(fnSet(m.lineSkipper)), len(m.tokens), len(m.typeReaders), shortName(m.memberLoop), shortName(m.entry))
+	r.Note("roles: skipper=%s line-skippers=%v token-readers=%d type-readers=%d member-loop=%s entry=%s", shortName(m.skipper), fnNames(fnSet(m.lineSkipper)), len(m.tokens)/2, len(m.typeReaders)/2, shortName(m.memberLoop), shortName(m.entry))
 	if m.skipper == nil || m.memberLoop == nil || m.entry == nil {
 		r.Unresolved("Q3", "layout skipper / member loop / entry point")
 		return
@@ -57,7 +57,7 @@ func runC06(r *Run, p *Prog) {
 				continue
 			}
 			for _, in := range b.Instrs {
-				if c, ok := in.(*ssa.Call); ok && c.Call.StaticCallee() == m.skipper {
+				if c, ok := in.(*ssa.Call); ok && c.Call.StaticCallee() == origFn(m.skipper) {
 					skipCall = c
 				}
 			}
